@@ -35,6 +35,8 @@ func runC08(c *Ctx) {
 	// "replaying with the node count as a hard budget reproduces the result": what Go returns is decided by the
 	// completed iterations alone, never by the way the search was cut short
 	c.As("C07.R3", "C08.R6.result", func() { c07R3R4(c, p, true) })
+	// what is reported must be what was computed: the output line is not recycled while it is being written
+	poolUseAfterPut(c, p, "C08.R7.output-buffer", map[string]bool{"uci": true, "search": true})
 }
 
 // allowed nondeterminism sites inside the closure of Search.Go: function -> kinds
